@@ -4,7 +4,7 @@ from concurrent.futures import ThreadPoolExecutor
 from .. import common, corpus, hyphlib as H
 
 THEOREMS = [
-    "Lou.C17.hyph_refines_spec", "Lou.C17.hyph_refines_spec'", "Lou.C17.hyph_state_invariant",
+    "Lou.C17.hyphenate_text_spec", "Lou.C17.hyph_refines_spec", "Lou.C17.hyph_refines_spec'", "Lou.C17.hyph_state_invariant",
     "Lou.C17.hyph_states_are_prefixes", "Lou.C17.hyph_fallback_correct", "Lou.C17.hyph_walk_bound",
     "Lou.C17.hyphenate_format", "Lou.C17.hyphenate_writes", "Lou.C17.hyphenate_writes_braille",
     "Lou.C17.hyphenate_braille_format_partial",
@@ -16,8 +16,8 @@ CLAIM = dict(
     text=("Kernel-checked theorems (LouProofs/C17.lean) for ALL pattern lists and ALL words: the automaton "
           "compileHyphenation builds (states = pattern prefixes, fallback = longest proper suffix that is a state) "
           "walked by hyphenateWord (fallback loop, limit clamp) computes exactly the property's longest-suffix matching "
-          "rule (hyph_refines_spec), under the hypotheses the proof forces — no digit before a leading '.', no "
-          "digit-only line, at most 65535 states — each shown necessary (witness in the model, reproduced on the "
+          "rule (hyph_refines_spec), and lou_hyphenate in text mode leaves exactly the property's string for every text shorter than 100 (hyphenate_text_spec), under the hypotheses the proof forces — no digit before a leading '.', no "
+          "digit-only line, state numbers fit their fields — the first two shown necessary (witness in the model, reproduced on the "
           "implementation by this check); format and write-range theorems for the lou_hyphenate wrapper. Tied to the "
           "code by differential testing: canonical automaton dumps (HYPDUMP) and per-word results with loop tick counts "
           "compared between the ASan/UBSan build and the compiled Lean model on generated dictionaries and the shipped "
@@ -224,7 +224,7 @@ def run(tier):
     oracle_agree_bad = []
 
     # ------------------------------------------------------------ (i) generated dictionaries
-    nd = 48 if quick else 600
+    nd = 48 if quick else 1200
     nw = 24 if quick else 40
     kinds = (["normal"] * 6 + ["leaddigit", "digitonly", "badutf8", "escape", "notdict", "normal"])
     gens = []
@@ -397,7 +397,7 @@ def run(tier):
 
     # ------------------------------------------------------------ (ii) shipped dictionaries
     tw, bw = corpus.words()
-    nsw = 60 if quick else 500
+    nsw = 60 if quick else 1200
     ship = []
     for dic in corpus.dictionaries():
         data = open(os.path.join(corpus.TABLES, dic), "rb").read()
